@@ -9,9 +9,11 @@ C11 — I/O failures surface as errors, never as panics or wrong results.
 
 Property theorems only.  The fault model is that of `Model/IO.lean`: every model function runs in
 `M α = Option Nat → Dev → Out α × Dev`; with `some k` the I/O call with index `k` (reads, writes,
-flushes, seeks are counted in `Dev.calls`) fails with `Err(io::Error)` (`.io .injected`), every other
-call behaves normally; `none` is the failure-free run.  All theorems quantify over EVERY `k`, every
-device, every writer state / archive value.
+flushes, seeks are counted in `Dev.calls`) fails with `Err(io::Error)` of the kind the device fails with
+(`.io d.fkind` — ANY `io::ErrorKind` the crate can tell apart, `InvalidInput` and `UnexpectedEof` included;
+`Uniform.kind`: no computation changes it), every other call behaves normally; `none` is the failure-free
+run.  All theorems quantify over EVERY `k`, every device (hence every kind), every writer state / archive
+value.
 
 Helper files: `Lemmas/FaultCore.lean` (`Fired`, `Uniform`, `Clean`/`Tight`, `ErrOnFire`, `EP`/`StepOK`,
 the tactic `fault`), `Lemmas/FaultWriter.lean` (every writer function), `Lemmas/FaultReader.lean`
@@ -25,12 +27,15 @@ C. a fault that fires inside a call is that call's error — `fired_fault_is_err
    of the implicit `finalize` and the ignored write of a live encoder's destructor; the last seek of
    `new_append`).  The third one found by this development — the ZIP64 probe seek of
    `ZipArchive::new`, whose failure was taken for "no ZIP64 records" — was a defect (D18) and is
-   repaired: `probe_injected_fault_reported`; what is still tolerated there is exactly the refused seek
-   to a negative position on a file too short to hold a locator (`probe_negative_seek_tolerated`).
+   repaired in two steps: first every failure other than `InvalidInput` was reported, now "no room for a
+   locator" is decided from the position of the end record (`probe_skipped_without_room`: no I/O at all)
+   and EVERY failure of the probe seek, of whatever kind, is reported (`probe_seek_error_reported`,
+   `probe_injected_fault_reported`).
 D. headline: `all_ok_is_faultfree`, `fault_outcome_dichotomy` (writer), `open_ok_is_faultfree`,
-   `read_scenario_dichotomy`, `stream_ok_is_faultfree` (readers), `append_ok_is_faultfree`
-E. concrete runs evaluated by the kernel, including the D18 regression (`d18_regression`) and the
-   witness against the pre-repair definition (`d18_pre_fix_witness`).
+   `read_scenario_dichotomy`, `stream_ok_is_faultfree_partial` (readers; the full streaming clause is false: K-J), `append_ok_is_faultfree`
+E. concrete runs evaluated by the kernel, including the D18 regressions (`d18_regression`,
+   `d18_regression_every_kind`) and the witnesses against the pre-repair definitions
+   (`d18_pre_fix_witness`, `d18_invalid_input_pre_fix_witness`).
 -/
 
 namespace ZipVerif.Props.C11
@@ -202,22 +207,37 @@ no failure is tolerated anywhere — a fault that fires is returned as that very
 theorem read_fired_fault_is_error (ext : Ext) (a : Archive) (i : Nat) (name : Bytes)
     (pw : Option Bytes) (k : Nat) (d : Dev) :
     (Fired k d (byIndexRead ext a i pw (some k) d).2 →
-      (byIndexRead ext a i pw (some k) d).1 = .err (.io .injected)) ∧
+      (byIndexRead ext a i pw (some k) d).1 = .err (.io d.fkind)) ∧
     (Fired k d (byNameRead ext a name pw (some k) d).2 →
-      (byNameRead ext a name pw (some k) d).1 = .err (.io .injected)) ∧
-    (Fired k d (byIndexRaw a i (some k) d).2 → (byIndexRaw a i (some k) d).1 = .err (.io .injected)) :=
-  ⟨(byIndexRead_tight ext a i pw).clean k d, (byNameRead_tight ext a name pw).clean k d,
-   (byIndexRaw_tight a i).clean k d⟩
+      (byNameRead ext a name pw (some k) d).1 = .err (.io d.fkind)) ∧
+    (Fired k d (byIndexRaw a i (some k) d).2 → (byIndexRaw a i (some k) d).1 = .err (.io d.fkind)) :=
+  ⟨(byIndexRead_tight ext a i pw).reports, (byNameRead_tight ext a name pw).reports,
+   (byIndexRaw_tight a i).reports⟩
 
-/-- **The streaming reader** (`ZipStreamReader::visit`, every entry read to its end; also under any
-pattern of partial reads followed by drop — but see the note below): a fault that fires is returned as that very error. -/
-theorem stream_fired_fault_is_error (ext : Ext) (k : Nat) (d : Dev)
+/-- **The streaming reader, consumers that read every entry to its end** (`ZipStreamReader::visit` with a
+visitor that reads each entry to end-of-file, `extract`): a fault that fires is returned as that very error.
+
+`_partial`: the full clause — ANY consumer of `read_zipfile_from_stream`, in particular one that reads part of an
+entry and drops the handle — is FALSE (`stream_drain_fault_swallowed`, known finding K-J): `Drop for ZipFile`
+drains the unread rest and cannot report a read error.  What holds for every consumption pattern is fault
+transparency (`stream_entries_unreached_fault`). -/
+theorem stream_fired_fault_is_error_partial (ext : Ext) (k : Nat) (d : Dev)
     (hf : Fired k d (streamVisit ext (some k) d).2) :
-    (streamVisit ext (some k) d).1 = .err (.io .injected) :=
-  (streamVisit_tight ext).clean k d hf
+    (streamVisit ext (some k) d).1 = .err (.io d.fkind) :=
+  (streamVisit_tight ext).reports hf
 
--- c11: restate (`stream_entries_fired_fault_is_error`: under partial consumption the drop-time drain swallows
--- a read error - `Model.drain` -, so the statement is false for a fault that fires inside the drain).
+/-- the hypothesis of `stream_fired_fault_is_error_partial` is satisfiable: the first read of the stream failing -/
+example : Fired 0 (Dev.ofBytes C05.oneEntry) (streamVisit storedExt (some 0) (Dev.ofBytes C05.oneEntry)).2 := by
+  decide +kernel
+
+/-- **Partial consumption + drop, any pattern** (`consume` decoded bytes asked for, `pulled` compressed bytes
+pulled through the `Take`, then `ZipFile::drop` drains in 64 KiB reads): a fault index that is not reached
+changes nothing — outcomes, entries, device.  (A fault that IS reached inside a drain is swallowed:
+`stream_drain_fault_swallowed`.) -/
+theorem stream_entries_unreached_fault (ext : Ext) (pattern : List Consume) (fuel i k : Nat) (d : Dev)
+    (hn : ¬ Fired k d (streamEntriesC ext pattern fuel i (some k) d).2) :
+    streamEntriesC ext pattern fuel i (some k) d = streamEntriesC ext pattern fuel i none d :=
+  (streamEntriesC_uniform ext pattern fuel i).same_of_not_fired hn
 
 /-- **`ZipArchive::new`**: a fault that fires — at ANY I/O call — is reported as an error (the injected
 one; `InvalidArchive` when it hit the seek to the central directory, which the crate maps to that). -/
@@ -229,30 +249,39 @@ theorem open_fired_fault_is_error (k : Nat) (d : Dev) (hf : Fired k d (openArchi
 fault is returned as that very error. -/
 theorem counts_fired_fault_is_error (footer : Eocd) (cde : Nat) (k : Nat) (d : Dev)
     (hf : Fired k d (getDirectoryCounts footer cde (some k) d).2) :
-    (getDirectoryCounts footer cde (some k) d).1 = .err (.io .injected) :=
-  (getDirectoryCounts_tight footer cde).clean k d hf
+    (getDirectoryCounts footer cde (some k) d).1 = .err (.io d.fkind) :=
+  (getDirectoryCounts_tight footer cde).reports hf
 
 /-- **D18, repaired**: the injected fault on the probe seek (the first I/O call of
-`get_directory_counts`) is returned; nothing else is attempted. -/
-theorem probe_injected_fault_reported (footer : Eocd) (cde : Nat) (d : Dev) :
-    getDirectoryCounts footer cde (some d.calls) d = (.err (.io .injected), d.shift 1) :=
-  Model.probe_injected_fault_reported footer cde d
+`get_directory_counts` when the end record lies 20 bytes or more into the file) is returned, WHATEVER the
+kind of error the device fails with; nothing else is attempted. -/
+theorem probe_injected_fault_reported (footer : Eocd) (cde : Nat) (d : Dev) (h20 : 20 ≤ cde) :
+    getDirectoryCounts footer cde (some d.calls) d = (.err (.io d.fkind), d.shift 1) :=
+  Model.probe_injected_fault_reported footer cde d h20
 
-/-- **`probe_negative_seek_tolerated`**: the seek failure that is still tolerated is exactly the seek
-to a negative position — the file is shorter than locator (20) + end record (22) + comment bytes, the
-seek is refused with `InvalidInput`, there is no locator to look at, and `get_directory_counts`
-answers from the 22-byte end record (`countsNoZip64`) after that one call … -/
-theorem probe_negative_seek_tolerated (footer : Eocd) (cde : Nat) (fa : Option Nat) (d : Dev)
-    (hfa : fa ≠ some d.calls) (hshort : d.buf.length < 42 + footer.comment.length) :
-    getDirectoryCounts footer cde fa d = (countsNoZip64 footer cde, d.shift 1) :=
-  Model.probe_negative_seek_tolerated footer cde fa d hfa hshort
+/-- **`probe_skipped_without_room`**: "there is no room for a ZIP64 locator" is decided from the known
+position of the end record — found less than 20 bytes into the file, a locator (20 bytes) does not fit in
+front of it — and no longer from the kind of a seek error: `get_directory_counts` then answers from the
+22-byte end record (`countsNoZip64`) without ANY I/O call, for every fault index and every device … -/
+theorem probe_skipped_without_room (footer : Eocd) (cde : Nat) (fa : Option Nat) (d : Dev)
+    (h20 : cde < 20) :
+    getDirectoryCounts footer cde fa d = (countsNoZip64 footer cde, d) :=
+  Model.probe_skipped_without_room footer cde fa d h20
 
-/-- … and every other error of the probe seek is returned unchanged.  (`probe_seek_apply`: on a `Dev`
-the seek's outcomes are the injected fault, `InvalidInput` iff the file is that short, else success.) -/
-theorem probe_other_seek_error_reported (footer : Eocd) (cde : Nat) (fa : Option Nat) (d d' : Dev)
-    (e : ZErr) (hs : M.seek (probePos footer) fa d = (.err e, d')) (he : e ≠ .io .invalidInput) :
+/-- … and otherwise EVERY error of the probe seek is returned unchanged — `InvalidInput` included, the kind
+that the first D18 repair still took for "file too short" (`d18_invalid_input_pre_fix_witness`).
+(`probe_seek_apply`: on a `Dev` the seek's outcomes are the injected fault of the device's kind,
+`InvalidInput` iff the file is shorter than 42 + comment bytes, else success.) -/
+theorem probe_seek_error_reported (footer : Eocd) (cde : Nat) (fa : Option Nat) (d d' : Dev)
+    (e : ZErr) (h20 : 20 ≤ cde) (hs : M.seek (probePos footer) fa d = (.err e, d')) :
     getDirectoryCounts footer cde fa d = (.err e, d') :=
-  Model.probe_other_seek_error_reported footer cde fa d d' e hs he
+  Model.probe_seek_error_reported footer cde fa d d' e h20 hs
+
+/-- `probe_seek_error_reported` is not vacuous, at the kind that used to be swallowed: a device failing with
+`InvalidInput` at its next call. -/
+example (footer : Eocd) (bs : Bytes) : M.seek (probePos footer) (some 0) (Dev.ofBytesK bs .invalidInput) =
+    (.err (.io .invalidInput), (Dev.ofBytesK bs .invalidInput).shift 1) := by
+  rw [probe_seek_apply]; exact if_pos rfl
 
 /-- **`new_append`**: a fault that fires before its last seek is reported as an error. -/
 theorem append_fired_fault_is_error (k : Nat) (d : Dev)
@@ -321,9 +350,12 @@ theorem open_ok_is_faultfree {k : Nat} {d d' : Dev} {a : Archive}
     (h : openArchive (some k) d = (.ok a, d')) : openArchive none d = (.ok a, d') :=
   openArchive_ok_faultfree h
 
-/-- **Streaming reader**: `Ok` under a fault is the failure-free result (every entry, every metadata
-record, the device). -/
-theorem stream_ok_is_faultfree (ext : Ext) {k : Nat} {d d' : Dev}
+/-- **Streaming reader, consumers that read every entry to its end**: `Ok` under a fault is the failure-free
+result (every entry, every metadata record, the device).
+
+`_partial`: for a consumer that drops partly read entries the clause is false — every call can return `Ok`
+while the entries handed out are different ones (`stream_drain_fault_swallowed`, known finding K-J). -/
+theorem stream_ok_is_faultfree_partial (ext : Ext) {k : Nat} {d d' : Dev}
     {r : List (FileData × Out Bytes) × List FileData}
     (h : streamVisit ext (some k) d = (.ok r, d')) : streamVisit ext none d = (.ok r, d') :=
   (streamVisit_tight ext).ok_faultfree h
@@ -347,7 +379,7 @@ error. -/
 theorem read_scenario_dichotomy (ext : Ext) (pw : Option Bytes) (k : Nat) (d : Dev) :
     openAndReadAll ext pw (some k) d = openAndReadAll ext pw none d ∨
     (∃ e, (openAndReadAll ext pw (some k) d).1 = .err e) ∨
-    .err (.io .injected) ∈ (openAndReadAll ext pw (some k) d).2.1 :=
+    .err (.io d.fkind) ∈ (openAndReadAll ext pw (some k) d).2.1 :=
   openAndReadAll_dichotomy ext pw k d
 
 /-- **`new_append`**: `Ok` under a fault carries the failure-free writer state; the sink is the
@@ -451,10 +483,13 @@ example :
     .err (.io .injected) ∈ (openAndReadAll storedExt none (some 13) (Dev.ofBytes C05.oneEntry)).2.1 :=
   read_scenario_dichotomy storedExt none 13 (Dev.ofBytes C05.oneEntry)
 
-/-- `probe_negative_seek_tolerated` is not vacuous: the empty archive (22 bytes) is shorter than
-42 bytes; its probe seek is refused and the archive opens with zero entries. -/
-example : C05.emptyZip.length < 42 ∧
-    C05.okEntries (openArchive none (Dev.ofBytes C05.emptyZip)).1 = some 0 := by decide +kernel
+/-- `probe_skipped_without_room` is not vacuous: the empty archive (22 bytes) has its end record at 0 < 20;
+nothing is probed (13 I/O calls: the end-record search and the seek to the directory, no probe seek) and
+the archive opens with zero entries — under every fault kind, every fault index is an error. -/
+example : C05.okEntries (openArchive none (Dev.ofBytes C05.emptyZip)).1 = some 0 ∧
+    (List.range (openArchive none (Dev.ofBytes C05.emptyZip)).2.calls).all (fun k =>
+      C05.isErr (openArchive (some k) (Dev.ofBytesK C05.emptyZip .invalidInput)).1) = true := by
+  decide +kernel
 
 /-- `new_append` on `C05.oneEntry` (`append_ignored_seek`): 36 I/O calls; the failure-free call
 leaves the sink at the directory start 32; with its last seek (call 35) failing it still returns `Ok`,
@@ -472,6 +507,54 @@ example : (List.range 35).all (fun k =>
 /-- The streaming reader on the same bytes: every fault index inside the run is the injected error. -/
 example : (List.range (streamVisit storedExt none (Dev.ofBytes C05.oneEntry)).2.calls).all (fun k =>
     isInjected (streamVisit storedExt (some k) (Dev.ofBytes C05.oneEntry)).1) = true := by decide +kernel
+
+/-! ### K-J: a read error in the drain of a dropped streamed entry is swallowed (known finding) -/
+
+/-- A 314-byte stream: stored entry `a` whose content is `"head"` followed by a complete stored archive with the one
+entry `evil`; stored entry `b`; the central directory (built with CPython `zipfile`). -/
+def nestedStream : Bytes :=
+  [
+     0x50,0x4b,0x03,0x04,0x14,0x00,0x00,0x00,0x00,0x00,0x00,0x00,0x21,0x00,0x04,0xee,0x70,0x7f,0x77,0x00,0x00,0x00,0x77,0x00,
+     0x00,0x00,0x01,0x00,0x00,0x00,0x61,0x68,0x65,0x61,0x64,0x50,0x4b,0x03,0x04,0x14,0x00,0x00,0x00,0x00,0x00,0x00,0x00,0x21,
+     0x00,0x3e,0x8d,0xac,0xb6,0x09,0x00,0x00,0x00,0x09,0x00,0x00,0x00,0x04,0x00,0x00,0x00,0x65,0x76,0x69,0x6c,0x65,0x76,0x69,
+     0x6c,0x20,0x64,0x61,0x74,0x61,0x50,0x4b,0x01,0x02,0x14,0x03,0x14,0x00,0x00,0x00,0x00,0x00,0x00,0x00,0x21,0x00,0x3e,0x8d,
+     0xac,0xb6,0x09,0x00,0x00,0x00,0x09,0x00,0x00,0x00,0x04,0x00,0x00,0x00,0x00,0x00,0x00,0x00,0x00,0x00,0x00,0x00,0xa4,0x01,
+     0x00,0x00,0x00,0x00,0x65,0x76,0x69,0x6c,0x50,0x4b,0x05,0x06,0x00,0x00,0x00,0x00,0x01,0x00,0x01,0x00,0x32,0x00,0x00,0x00,
+     0x2b,0x00,0x00,0x00,0x00,0x00,0x50,0x4b,0x03,0x04,0x14,0x00,0x00,0x00,0x00,0x00,0x00,0x00,0x21,0x00,0xc5,0xe9,0x2d,0x9f,
+     0x11,0x00,0x00,0x00,0x11,0x00,0x00,0x00,0x01,0x00,0x00,0x00,0x62,0x73,0x65,0x76,0x65,0x6e,0x74,0x65,0x65,0x6e,0x20,0x62,
+     0x79,0x74,0x65,0x73,0x21,0x21,0x50,0x4b,0x01,0x02,0x14,0x03,0x14,0x00,0x00,0x00,0x00,0x00,0x00,0x00,0x21,0x00,0x04,0xee,
+     0x70,0x7f,0x77,0x00,0x00,0x00,0x77,0x00,0x00,0x00,0x01,0x00,0x00,0x00,0x00,0x00,0x00,0x00,0x00,0x00,0x00,0x00,0xa4,0x01,
+     0x00,0x00,0x00,0x00,0x61,0x50,0x4b,0x01,0x02,0x14,0x03,0x14,0x00,0x00,0x00,0x00,0x00,0x00,0x00,0x21,0x00,0xc5,0xe9,0x2d,
+     0x9f,0x11,0x00,0x00,0x00,0x11,0x00,0x00,0x00,0x01,0x00,0x00,0x00,0x00,0x00,0x00,0x00,0x00,0x00,0x00,0x00,0xa4,0x01,0x96,
+     0x00,0x00,0x00,0x62,0x50,0x4b,0x05,0x06,0x00,0x00,0x00,0x00,0x02,0x00,0x02,0x00,0x5e,0x00,0x00,0x00,0xc6,0x00,0x00,0x00,
+     0x00,0x00]
+
+/-- names of the entries handed out and whether every call — `read_zipfile_from_stream` and the consumer's reads —
+returned `Ok` -/
+def streamSaw (r : Out (List (FileData × Out Bytes)) × Dev) : Option (List Bytes × Bool) :=
+  match r.1 with
+  | .ok es => some (es.map (·.1.fileName), es.all (fun e => e.2.isOk))
+  | _ => none
+
+/-- **`stream_drain_fault_swallowed`** — counterexample to the full streaming clause (the former
+`stream_entries_fired_fault_is_error`, and "`Ok` everywhere implies the failure-free entries").  The consumer
+reads 4 bytes of each entry and drops the handle.  Failure-free it sees `a`, `b`.  With I/O call 13 failing — the
+first read of the drain `ZipFile::drop` runs for `a` (calls 0–11: the header, 12: the consumer's read) — the
+drain ends silently, the stream stays inside `a`'s data, and the next `read_zipfile_from_stream` parses the
+nested archive: EVERY call returns `Ok` and the entries are `a`, `evil`.  Replayed on the crate by the fault
+stream (`fault.stream … consume=4 k=14` in corpus/fault.ops is the same with 64 KiB of filler in front, i.e. the
+SECOND drain read; oracle message `K-J stream-drain-fault-swallowed:`). -/
+theorem stream_drain_fault_swallowed :
+    streamSaw (streamEntriesC storedExt [{ k := 4, pulled := 4 }] 8 0 none (Dev.ofBytes nestedStream))
+      = some ([[0x61], [0x62]], true) ∧
+    streamSaw (streamEntriesC storedExt [{ k := 4, pulled := 4 }] 8 0 (some 13) (Dev.ofBytes nestedStream))
+      = some ([[0x61], [0x65, 0x76, 0x69, 0x6c]], true) ∧
+    Fired 13 (Dev.ofBytes nestedStream)
+      (streamEntriesC storedExt [{ k := 4, pulled := 4 }] 8 0 (some 13) (Dev.ofBytes nestedStream)).2 := by
+  decide +kernel
+
+/-- … whereas the same fault while every entry is read to its end is reported. -/
+example : C05.isErr (streamVisit storedExt (some 13) (Dev.ofBytes nestedStream)).1 = true := by decide +kernel
 
 /-! ### D18: the swallowed probe-seek failure (found by this development, repaired in the crate) -/
 
@@ -494,6 +577,21 @@ theorem d18_regression :
     (openArchive none (Dev.ofBytes zip64Zero)).2.calls = 49 ∧
     isInjected (openArchive (some 13) (Dev.ofBytes zip64Zero)).1 = true ∧
     (List.range 49).all (fun k => C05.isErr (openArchive (some k) (Dev.ofBytes zip64Zero)).1) = true := by
+  decide +kernel
+
+/-- the seven `io::ErrorKind`s the crate (and this model) can tell apart -/
+def allKinds : List IoKind :=
+  [.unexpectedEof, .other, .brokenPipe, .invalidData, .invalidInput, .writeZero, .injected]
+
+/-- **Regression, second part (`d18_regression_every_kind`).**  Whatever kind of error the device fails
+with — `InvalidInput` included —, the probe seek (I/O call 13) failing returns exactly that error, and no
+fault index yields a success. -/
+theorem d18_regression_every_kind :
+    allKinds.all (fun κ =>
+      (match (openArchive (some 13) (Dev.ofBytesK zip64Zero κ)).1 with
+        | .err (.io κ') => κ' == κ
+        | _ => false) &&
+      (List.range 49).all (fun k => C05.isErr (openArchive (some k) (Dev.ofBytesK zip64Zero κ)).1)) = true := by
   decide +kernel
 
 open M in
@@ -552,6 +650,65 @@ theorem d18_pre_fix_witness :
     C05.okEntries (openArchivePreD18 (some 13) (Dev.ofBytes zip64Zero)).1 = some 0 := by
   decide +kernel
 
+open M in
+/-- `get_directory_counts` as it was after the FIRST D18 repair: a failure of the probe seek of kind
+`InvalidInput` — what a refused seek to a negative position yields — was still taken for "no ZIP64
+locator", whoever produced it.  Local copy, used only by `d18_invalid_input_pre_fix_witness`. -/
+def getDirectoryCountsPreD18b (footer : Eocd) (cdeStart : Nat) : M (Nat × Nat × Nat) := do
+  let sk ← attempt (seek (.endOff (-(20 + 22 + (footer.comment.length : Int)))))
+  let loc : Option Locator ← match sk with
+    | .ok _ => do
+      let r ← attempt parseLocator
+      match r with
+      | .ok l => pure (some l)
+      | .error .invalidArchive => pure none
+      | .error e => throw e
+    | .error (.io .invalidInput) => pure none
+    | .error e => throw e
+  match loc with
+  | none =>
+    let sz := footer.cdSize.toNat
+    let off := footer.cdOffset.toNat
+    if cdeStart < sz + off then throw .invalidArchive else
+    let archiveOffset := cdeStart - sz - off
+    pure (archiveOffset, off + archiveOffset, footer.filesOnDisk.toNat)
+  | some l =>
+    if !footer.recordTooSmall && footer.diskNumber.toUInt32 != l.diskWithCd then
+      throw .unsupportedArchive
+    else if cdeStart < 60 then throw .invalidArchive else do
+      let (f64, archiveOffset) ← findEocd64 l.eocd64Offset.toNat (cdeStart - 60)
+      if f64.diskNumber != f64.diskWithCd then throw .unsupportedArchive else
+      let ds := f64.cdOffset.toNat + archiveOffset
+      if ds ≥ 18446744073709551616 then throw .invalidArchive else
+      pure (archiveOffset, ds, f64.files.toNat)
+
+open M in
+/-- `ZipArchive::new` over that definition. -/
+def openArchivePreD18b : M Archive := do
+  let (footer, cdeStart) ← findAndParseEocd
+  if !footer.recordTooSmall && footer.diskNumber != footer.diskWithCd then
+    throw .unsupportedArchive
+  else do
+    let (archiveOffset, directoryStart, numberOfFiles) ← getDirectoryCountsPreD18b footer cdeStart
+    let r ← attempt (seek (.start directoryStart))
+    match r with
+    | .error _ => throw .invalidArchive
+    | .ok _ =>
+      let files ← readCentralLoop archiveOffset numberOfFiles
+      pure { files, offset := archiveOffset, comment := footer.comment }
+
+/-- **The red-team finding (`d18_invalid_input_pre_fix_witness`), against the definition after the first
+repair**: a device whose failing call fails with kind `InvalidInput` (fault stream: `kind=invalidinput`),
+failing at the probe seek (I/O call 13): `ZipArchive::new` on `zip64Zero` returned `Ok` with ZERO entries
+where the failure-free run returns ONE; with the kind the model used to assume (`injected`) the same
+definition reported the error — the defect was hidden by the assumption that the injected error is
+distinguishable from `InvalidInput`. -/
+theorem d18_invalid_input_pre_fix_witness :
+    C05.okEntries (openArchivePreD18b none (Dev.ofBytesK zip64Zero .invalidInput)).1 = some 1 ∧
+    C05.okEntries (openArchivePreD18b (some 13) (Dev.ofBytesK zip64Zero .invalidInput)).1 = some 0 ∧
+    isInjected (openArchivePreD18b (some 13) (Dev.ofBytes zip64Zero)).1 = true := by
+  decide +kernel
+
 /-! ### Elementary facts about how the model reports a failing call (first layer of C11) -/
 
 /-- Same statement as `writer_no_panic_under_fault` under its first-layer name. -/
@@ -572,10 +729,10 @@ theorem reader_fault_no_panic (ext : Ext) (hext : ExtNoPanic ext) (bytes : Bytes
     C05.runScript ext (some k) ⟨Dev.ofBytes bytes, none⟩ script = false :=
   C05.reader_total_bytes ext hext bytes hlen (some k) script
 
-/-- The failing call is the `k`-th I/O call and reports the injected error; the device keeps its
+/-- The failing call is the `k`-th I/O call and reports the injected error (of the device's kind); the device keeps its
 contents and position (only the call counter advances). -/
 theorem prim_fault {α} (f : Dev → Out α × Dev) (d : Dev) :
-    M.prim f (some d.calls) d = (.err (.io .injected), { d with calls := d.calls + 1 }) := by
+    M.prim f (some d.calls) d = (.err (.io d.fkind), { d with calls := d.calls + 1 }) := by
   unfold M.prim
   simp
 
